@@ -781,6 +781,67 @@ func scriptedAgentScenarios(o *out, prop string) {
 		}
 		o.count("stop-racing-close")
 	}
+	// (h) Collect is ONE step also when the table is large (the walk takes milliseconds): two expired
+	// transactions are started one after the other while a Collect walks 150000 live ones; a Collect that
+	// times out the LATER one has also seen the earlier one
+	{
+		var mu sync.Mutex
+		timedOut := map[[stun.TransactionIDSize]byte]int{}
+		collectNo := 0
+		a := stun.NewAgent(func(e stun.Event) {
+			if e.TransactionID[11] == 0x5B && errors.Is(e.Error, stun.ErrTransactionTimeOut) {
+				mu.Lock()
+				timedOut[e.TransactionID] = collectNo
+				mu.Unlock()
+			}
+		})
+		for k := 0; k < 150000; k++ {
+			var t [stun.TransactionIDSize]byte
+			t[0], t[1], t[2], t[5], t[11] = byte(k), byte(k>>8), byte(k>>16), byte(k*7), 0x5C
+			_ = a.Start(t, agentBase.Add(2*time.Hour))
+		}
+		odd := ""
+		for round := 0; round < 80 && odd == ""; round++ {
+			var ta, tb [stun.TransactionIDSize]byte
+			ta[0], ta[1], ta[2], ta[11] = byte(round*37), byte(round), 1, 0x5B
+			tb[0], tb[1], tb[2], tb[11] = byte(round*37+15-round%16*2), byte(round), 2, 0x5B
+			for i := 3; i < 11; i++ {
+				ta[i], tb[i] = byte(round*i), byte(255-round*i)
+			}
+			now := agentBase.Add(time.Hour)
+			start := make(chan struct{})
+			var wg sync.WaitGroup
+			wg.Add(2)
+			mu.Lock()
+			collectNo = 2*round + 1
+			mu.Unlock()
+			go func() { defer wg.Done(); <-start; _ = a.Collect(now) }()
+			go func() {
+				defer wg.Done()
+				<-start
+				time.Sleep(time.Duration(round%10) * 100 * time.Microsecond)
+				_ = a.Start(ta, agentBase)
+				_ = a.Start(tb, agentBase)
+			}()
+			close(start)
+			wg.Wait()
+			mu.Lock()
+			collectNo = 2*round + 2
+			mu.Unlock()
+			_ = a.Collect(now)
+			mu.Lock()
+			ca, cb := timedOut[ta], timedOut[tb]
+			mu.Unlock()
+			if ca == 0 || cb == 0 || cb < ca {
+				odd = fmt.Sprintf("x round %d: Start(A) returned before Start(B) was called, both already expired, during a Collect over 150000 transactions; A timed out in Collect #%d, B in Collect #%d (0 = never)", round, ca, cb)
+			}
+		}
+		if odd != "" {
+			o.failFor(prop, "not-linearizable", odd+" (no order of atomic steps explains a Collect that saw the later Start and not the earlier one)")
+		}
+		_ = a.Close()
+		o.count("starts-during-large-collect")
+	}
 	// (d) the handler of a transaction's terminal event (a response, a stop, a timeout) registers the same ID
 	// again: the transaction is already gone, so that Start succeeds and the new transaction stays
 	for _, term := range [][]int{{3, 1, 0x0101}, {2, 1, 0}, {2, 1, 7}, {4, 5}} {
